@@ -20,16 +20,18 @@ import (
 
 // HistoryOpts shapes a generated chain history on a real node.
 type HistoryOpts struct {
-	Blocks      int
-	TxPerBlock  int           // upper bound of random ordinary txs offered per block (default 3)
-	ShortEpochs bool          // shrink the validation timeline so that epochs complete within ~45 blocks
-	WithFlips   bool          // authors submit flips between ceremonies
-	NoOnline    bool          // nobody ever goes online (the chain stays in god mode: only the god address may propose)
-	MoreFlips   bool          // ... up to the maximum the identity may submit (extra flips of Verified / Human authors)
-	BlockStep   time.Duration // virtual time between blocks (default 20 s)
-	EmptyEvery  int           // every k-th block is proposed from an empty mempool view? (0 = never) – handled by caller
-	Participate float64       // probability that a user takes part in a ceremony (default 0.75); god always does
-	Always      map[int]bool  // users that always take part (e.g. the key of a second proposing replica)
+	Blocks       int
+	TxPerBlock   int           // upper bound of random ordinary txs offered per block (default 3)
+	ShortEpochs  bool          // shrink the validation timeline so that epochs complete within ~45 blocks
+	WithFlips    bool          // authors submit flips between ceremonies
+	Onboard      bool          // identities with invitations invite key holders that have no identity (fresh or terminated), who activate
+	OnlineAtOnce bool          // the Always users go online in the first block after every epoch change (before anybody else can)
+	NoOnline     bool          // nobody ever goes online (the chain stays in god mode: only the god address may propose)
+	MoreFlips    bool          // ... up to the maximum the identity may submit (extra flips of Verified / Human authors)
+	BlockStep    time.Duration // virtual time between blocks (default 20 s)
+	EmptyEvery   int           // every k-th block is proposed from an empty mempool view? (0 = never) – handled by caller
+	Participate  float64       // probability that a user takes part in a ceremony (default 0.75); god always does
+	Always       map[int]bool  // users that always take part (e.g. the key of a second proposing replica)
 }
 
 func ShortValidation() *config.ValidationConfig {
@@ -123,7 +125,8 @@ func (h *History) OfferTxs(b int) {
 				if h.O.MoreFlips {
 					lim = int(id.GetMaximumAvailableFlips())
 				}
-				if (i == 0 || id.RequiredFlips > 0) && len(id.Flips) < lim && (r.Intn(3) == 0 || h.O.MoreFlips && r.Intn(2) == 0) {
+				must := (i == 0 || h.O.Always[i]) && len(id.Flips) < int(id.RequiredFlips) // the proposing identities make their required flips at once
+				if (i == 0 || id.RequiredFlips > 0) && len(id.Flips) < lim && (must || r.Intn(3) == 0 || h.O.MoreFlips && r.Intn(2) == 0) {
 					c, _ := ipfs.NewMemoryIpfsProxy().Cid([]byte(fmt.Sprint("flip", ep, i, len(id.Flips), b)))
 					h.try(i, fmt.Sprint("flip", b), &types.Transaction{Type: types.SubmitFlipTx, Payload: attachments.CreateFlipSubmitAttachment(c.Bytes(), uint8(len(id.Flips)))})
 				}
@@ -131,8 +134,37 @@ func (h *History) OfferTxs(b int) {
 		}
 		for i := range h.O.Always {
 			// users that must stay able to propose: back online after every epoch change, no random transactions
-			if A.App.ValidatorsCache.IsValidated(w.Addrs[i]) && !A.App.ValidatorsCache.IsOnlineIdentity(w.Addrs[i]) && b%6 == 0 {
+			if A.App.ValidatorsCache.IsValidated(w.Addrs[i]) && !A.App.ValidatorsCache.IsOnlineIdentity(w.Addrs[i]) && (b%6 == 0 || h.O.OnlineAtOnce && len(A.Pool.GetPendingByAddress(w.Addrs[i])) == 0) {
 				h.try(i, fmt.Sprint("online-always", b), OnlineTx(true))
+			}
+		}
+		if h.O.Onboard {
+			for j := 1; j < len(w.Keys); j++ {
+				switch A.App.State.GetIdentityState(w.Addrs[j]) {
+				case state.Undefined:
+					if r.Intn(5) != 0 {
+						continue
+					}
+					// an inviter: the god address while it has invitations, else anybody who has one
+					inv := -1
+					if A.App.State.GodAddressInvites() > 0 && A.App.State.GodAddress() == w.Addrs[0] {
+						inv = 0
+					}
+					for i := 1; i < len(w.Keys) && inv < 0; i++ {
+						if A.App.State.GetInvites(w.Addrs[i]) > 0 {
+							inv = i
+						}
+					}
+					if inv >= 0 {
+						to := w.Addrs[j]
+						h.try(inv, fmt.Sprint("invite-key", j, b), &types.Transaction{Type: types.InviteTx, To: &to, Amount: Dna(300)})
+					}
+				case state.Invite:
+					if r.Intn(2) == 0 {
+						to := w.Addrs[j]
+						h.try(j, fmt.Sprint("activate", b), &types.Transaction{Type: types.ActivationTx, To: &to, Payload: crypto.FromECDSAPub(&w.Keys[j].PublicKey)})
+					}
+				}
 			}
 		}
 		for j, n := 0, r.Intn(h.O.TxPerBlock+1); j < n; j++ {
@@ -231,6 +263,27 @@ func (h *History) plan(i int) *cerPlan {
 		nShort, nLong = A.VC.FxFlipsToSolve(w.Addrs[i])
 	}
 	good := i == 0 || h.O.Always[i] || r.Intn(5) != 0 // the proposing identities must stay validated
+	// the consistent participants report the same flips: about one flip in six (by its cid), never one of an identity that
+	// must stay validated (an author of a reported flip fails the validation)
+	var longCids [][]byte
+	protected := map[string]bool{}
+	if A.VC != nil {
+		longCids = A.VC.FxLongFlipCids(w.Addrs[i])
+		for k := range w.Keys {
+			if k == 0 || h.O.Always[k] {
+				for _, fl := range A.App.State.GetIdentity(w.Addrs[k]).Flips {
+					protected[string(fl.Cid)] = true
+				}
+			}
+		}
+	}
+	reported := func(f int) bool {
+		if f >= len(longCids) || len(longCids[f]) == 0 {
+			return false
+		}
+		c := longCids[f]
+		return c[len(c)-1]%6 == 0 && !protected[string(c)]
+	}
 	mk := func(n int, long bool) []byte {
 		if n == 0 {
 			return []byte{byte(r.Intn(256))}
@@ -244,7 +297,7 @@ func (h *History) plan(i int) *cerPlan {
 				a.Right(uint(f))
 			}
 			if long {
-				if good && f == 1 {
+				if good && reported(f) {
 					a.Grade(uint(f), types.GradeReported)
 				} else if good || r.Intn(2) == 0 {
 					a.Grade(uint(f), types.GradeA)
